@@ -117,6 +117,20 @@ def expr_leaves(e):
     return expr_leaves(e[1]) + expr_leaves(e[2])
 
 
+def expr_map_surfs(e, m):
+    """the expression with surface number n replaced by m[n] (signs kept)"""
+    t = e[0]
+    if t == 's':
+        return ('s', (1 if e[1] > 0 else -1) * m[abs(e[1])])
+    if t == 'f':
+        return ('f', (1 if e[1] > 0 else -1) * m[abs(e[1])], e[2])
+    if t == 'cc':
+        return e
+    if t == 'c':
+        return ('c', expr_map_surfs(e[1], m))
+    return (t, expr_map_surfs(e[1], m), expr_map_surfs(e[2], m))
+
+
 def expr_size(e):
     t = e[0]
     if t in ('s', 'f', 'cc'):
@@ -217,6 +231,20 @@ class Deck:
         return None
 
 
+def vary_cards(d, rng, p_shuffle=0.35, p_impcard=0.3):
+    """MCNP-insignificant card-level choices made on the abstract deck: the order of the cell cards (any order, not
+    only ascending numbers) and importances given by an IMP:N data card (entries in cell-card order) instead of
+    imp:n= on the cards"""
+    if d.imp_cards is not None or any(c.hints.get('raw') is not None for c in d.cells):
+        return d
+    if rng.random() < p_shuffle:
+        rng.shuffle(d.cells)
+    if rng.random() < p_impcard:
+        d.imp_cards = {'n': [str(int(c.imp)) if c.imp == int(c.imp) and rng.random() < 0.6 else fnum(float(c.imp))
+                             for c in d.cells]}
+    return d
+
+
 def star_angles(bs):
     """the angles (degrees) of a starred card; every angle is spelled as one of θ, -θ, 360-θ, θ-360 (same cosine),
     chosen deterministically from the entry so that a deck renders the same way every time"""
@@ -288,10 +316,15 @@ def render_cell(c, lay=None, with_imp=True):
     return txt + ('  ' + ' '.join(opts) if opts else '')
 
 
-def render_surf(s):
+def render_surf(s, lay=None):
     name = s.bc + str(s.id)
     tr = (' %d' % s.trnum) if s.trnum is not None else ''
-    return '%s%s %s %s' % (name, tr, s.mn, ' '.join(fnum(p) for p in s.ps))
+    ps = [fnum(p) for p in s.ps]
+    if lay is not None and lay.rng is not None and lay.coin(0.5):
+        # Fortran spellings of the same numbers (-0.5 → -.5, 5-1, -0.5d0 …): MCNP-insignificant
+        from .restyle import respell_number
+        ps = [respell_number(t, lay.rng) if lay.coin(0.4) else t for t in ps]
+    return '%s%s %s %s' % (name, tr, s.mn, ' '.join(ps))
 
 
 def wrap_card(line, width=78):
@@ -326,7 +359,7 @@ def render_deck(d, lay=None, imp_on_cards=None):
             out.append(wrap_card(render_cell(c, lay, with_imp=imp_on_cards)))
     out.append('')
     for s in d.surfs:
-        out.append(wrap_card(render_surf(s)))
+        out.append(wrap_card(render_surf(s, lay)))
     out.append('')
     for num, (m, sp) in d.trs.items():
         out.append(wrap_card(tr_card(num, m, sp.get('star', False)) if 'raw' not in sp else sp['raw']))
